@@ -707,7 +707,8 @@ theorem getLinesGo_ok_len {src : List Char} {offs : List LineOffset} {end_ inden
     (h : getLinesGo src offs end_ indent keep line result mapping = .ok r) (hlt : line < end_) :
     end_ ≤ offs.length := by
   fun_induction getLinesGo src offs end_ indent keep line result mapping <;> simp_all
-  all_goals trace_state; sorry
+  have hl := (List.getElem?_eq_some_iff.mp ‹offs[_]? = some _›).1
+  omega
 
 /-- no CR can reach a node payload built by `get_lines` from the parser's own table -/
 theorem get_lines_split_no_cr (src : List Char) (begin_ end_ indent : Nat) (keep : Bool)
@@ -727,16 +728,17 @@ theorem get_lines_split_no_cr (src : List Char) (begin_ end_ indent : Nat) (keep
     have hv' : v ∈ vsOf src := (List.drop_sublist _ _).subset ((List.take_sublist _ _).subset hv)
     have := vsOf_no_terminator src v hv'
     exact ⟨fun hc => (this.1 _ hc).2 rfl, fun hc => (this.2 _ hc).2 rfl⟩
-  · -- a line beyond the table is an index panic, never `.ok`
-    exfalso
-    unfold getLines at h
-    rw [if_neg (by omega)] at h
-    by_cases hlt : begin_ < end_
-    · exact hlen (getLinesGo_ok_len h hlt)
+  · by_cases hlt : begin_ < end_
+    · -- a line beyond the table is an index panic, never `.ok`
+      exfalso
+      unfold getLines at h
+      rw [if_neg (by omega)] at h
+      exact hlen (getLinesGo_ok_len h hlt)
     · -- empty range beyond the table: the loop does not run
-      rw [getLinesGo, if_neg hlt] at h
+      unfold getLines at h
+      rw [if_neg (by omega), getLinesGo, if_neg hlt] at h
       cases h
-      intro hc; cases hc
+      simp
 
 /-- The mechanism behind C10: two texts with the same views (e.g. the LF, CR LF and CR variants of a
     document, or a document with and without its final line ending) yield the same content for every
